@@ -456,6 +456,9 @@ def appStep (a : App) : AOp → AOut × App
       | false :: ws => lift a .deliverO2P a.held (a.results ++ [[]]) ws
       | [] => (.notModelled, a)
     | .exc false :: _ => lift a .deliverO2P a.held a.results a.waiters
+    -- the two halves of a message whose `_unbox` fails exist only inside `deliverFail`
+    | .recvd _ :: _ => (.notModelled, a)
+    | .unrecvd _ _ _ :: _ => (.notModelled, a)
   | .deliverFail j =>
     if a.s.closed then (.base .closed, a) else
     match a.s.o2p with
@@ -888,5 +891,11 @@ def unboxRefAcrossInspect (recheck : Bool) (s : Side) (id : Id) : PyVal × PyVal
        px := (unboxRef s id).2.px.recv id,
        pid := fun j => if j = id then (unboxRef s id).2.next else (unboxRef s id).2.pid j,
        next := (unboxRef s id).2.next + 1 })
+
+/-- a third way to write that window: the cache is consulted again once the class is known and the nested call's proxy
+IS found — but returned without counting the reception.  One proxy object, standing for one reference, while the owner
+registered two. -/
+def unboxRefAcrossInspectUncounted (s : Side) (id : Id) : PyVal × PyVal × Side :=
+  ((unboxRef s id).1, (unboxRef s id).1, (unboxRef s id).2)
 
 end Rpyc.Box
